@@ -59,6 +59,9 @@ func c15Requests() map[string]idxRequest {
 		{bD("a", int32(1)), idxOpt{unique: true, name: "other"}},
 		{bD("b", int32(1)), idxOpt{name: "a_1"}},
 		{bD("b", int32(-1)), idxOpt{}},
+		{bD("a", int32(1)), idxOpt{unique: true, name: "part"}},
+		{bD("a", int32(1)), idxOpt{unique: true, partial: bD("b", bD("$gt", int32(0)))}},
+		{bD("a", int32(1)), idxOpt{unique: true, partial: bD("b", bD("$gt", int32(1))), name: "part"}},
 		{bD("t", int32(1)), idxOpt{expire: i32(3600)}},
 	} {
 		n, r := mk(x.k, x.o)
